@@ -1165,7 +1165,7 @@ def parse_template(path, seen=None):
     return out
 
 
-def build_unit(template, canaries=False, demote=()):
+def build_unit(template, canaries=False, demote=(), lenient=None):
     """returns (text, line_map, items_meta, stats)
 
     line_map[k] (k = 0-based output line) = None | dict(file, line, item, canary)
@@ -1196,7 +1196,23 @@ def build_unit(template, canaries=False, demote=()):
                 line_map.append({"tmpl": os.path.relpath(p[2], UNITS)})
         else:
             _, hdr, subs, path = p
-            ot, meta = weave_item(hdr, subs, stats)
+            try:
+                ot, meta = weave_item(hdr, subs, stats)
+            except WeaveError as e:
+                if lenient is None or hdr["kind"] not in ("fn", "macrocall"):
+                    raise
+                # fallback of vc/run.py (second attempt only): an anchor inside this function was lost.  Keep its
+                # signature and contract as an assumed stub if that much can still be extracted, otherwise leave it out;
+                # either way the function is reported as undecided and the rest of the unit is still checked.
+                keep = [d for d in subs if d["op"] in ("requires", "ensures", "receiver", "attr", "ret", "rename", "nocanary")]
+                keep += [dict(d, count="optional") for d in subs if d["op"] == "rewrite"]
+                try:
+                    ot, meta = weave_item(hdr, keep + [{"op": "sigonly"}], {})
+                    meta["demoted"] = True
+                    lenient.append(f"{hdr['file']}::{hdr['name']}: {e} (kept as assumed contract)")
+                except WeaveError as e2:
+                    lenient.append(f"{hdr['file']}::{hdr['name']}: {e} (left out: {e2})")
+                    continue
             if demote and meta["name"] in demote and meta["kind"] in ("fn", "macrocall") and not meta["assumed_stub"]:
                 # fallback of vc/run.py: a function whose changed text left the verifiable subset is kept as an
                 # assumed contract (body dropped) so that the rest of the unit is still decided
